@@ -480,3 +480,64 @@ func TestC10_Histories(t *testing.T) {
 	})
 	col("C10").Completed("TestC10_Histories")
 }
+
+// Big documents: a NOP run that crosses the serializer's 65536-tag buffer boundary (deleting array elements around it,
+// or replacing a container of more than 64K tape words by null) must survive "every serialize API reflects the edit".
+func genBigGapHistory(t *rapid.T, setNull bool) historyCase {
+	el := []string{"1", "null", `"a"`, "[]", "1.5"}[rapid.IntRange(0, 4).Draw(t, "el")]
+	at := 65536*(1+rapid.IntRange(0, 1).Draw(t, "bk")) - 2 + rapid.IntRange(-6, 6).Draw(t, "gd")
+	ln := rapid.IntRange(1, 60).Draw(t, "glen")
+	if rapid.IntRange(0, 2).Draw(t, "biggap") == 0 {
+		ln = rapid.IntRange(1000, 70000).Draw(t, "gbig")
+	}
+	n := at + ln + rapid.IntRange(1, 300).Draw(t, "after")
+	var b bytes.Buffer
+	if setNull {
+		// [ <prefix elements> , [ ...ln elements... ] , <suffix> ] : the inner array becomes null
+		b.WriteByte('[')
+		for i := 0; i < at; i++ {
+			b.WriteString(el)
+			b.WriteByte(',')
+		}
+		b.WriteByte('[')
+		for i := 0; i < ln; i++ {
+			if i > 0 {
+				b.WriteByte(',')
+			}
+			b.WriteString(el)
+		}
+		b.WriteString(`],"end"]`)
+		return historyCase{Doc: b.Bytes(), Copy: rapid.Bool().Draw(t, "copy"), Ops: []editOp{{Kind: "SetNull", Path: []int{0, at}, Nav: 1}}}
+	}
+	b.WriteByte('[')
+	for i := 0; i < n; i++ {
+		if i > 0 {
+			b.WriteByte(',')
+		}
+		b.WriteString(el)
+	}
+	b.WriteByte(']')
+	del := make([]bool, n)
+	for i := at; i < at+ln; i++ {
+		del[i] = true
+	}
+	return historyCase{Doc: b.Bytes(), Copy: rapid.Bool().Draw(t, "copy"), Ops: []editOp{{Kind: "DelArr", Path: []int{0}, Nav: 1, UseFn: true, Del: del}}}
+}
+
+func TestC13_BigSetNull(t *testing.T) {
+	runRapid(t, "C13_BigSetNull", nCases(48, 1200), func(t *rapid.T) {
+		c := genBigGapHistory(t, true)
+		c13Run(t, c)
+		col("C13").Eval(true, historyHash(c), "big-container-to-null-across-64K-tags")
+	})
+	col("C13").Completed("TestC13_BigSetNull")
+}
+
+func TestC14_BigGap(t *testing.T) {
+	runRapid(t, "C14_BigGap", nCases(48, 1200), func(t *rapid.T) {
+		c := genBigGapHistory(t, false)
+		c14Run(t, c)
+		col("C14").Eval(true, historyHash(c), "deleted-run-across-64K-tags")
+	})
+	col("C14").Completed("TestC14_BigGap")
+}
